@@ -140,7 +140,10 @@ fn exchange_inner(s: &Session, ch: &mut Chooser) -> Result<String, String> {
     const G_ALT: [u8; 10] = [6, 5, 3, 15, 23, 39, 71, 135, 0, 1];
     // ... or the modulus the client is told: a few single-bit changes of N (bit 0 makes it even)
     const N_BITS: [usize; 7] = [0, 1, 7, 8, 64, 128, 255];
-    let c2 = ch.pick(1 + 256 + 256 + G_ALT.len() + N_BITS.len(), "wire-B-salt");
+    // ... or a modulus whose most significant 1, 2, 8 or 16 bytes are zero (N reduced modulo a power of two: odd, and
+    // an ordinary 32-byte field on the wire; the proofs hash the field, not the number)
+    const N_SHORT: [usize; 4] = [31, 30, 24, 16];
+    let c2 = ch.pick(1 + 256 + 256 + G_ALT.len() + N_BITS.len() + N_SHORT.len(), "wire-B-salt");
     let n_true = LARGE_SAFE_PRIME_LITTLE_ENDIAN;
     let (b_recv, salt_recv, g_recv, n_recv) = if c2 == 0 {
         (b_sent, s.salt, GENERATOR, n_true)
@@ -150,8 +153,13 @@ fn exchange_inner(s: &Session, ch: &mut Chooser) -> Result<String, String> {
         (b_sent, flip(&s.salt, c2 - 257), GENERATOR, n_true)
     } else if c2 <= 512 + G_ALT.len() {
         (b_sent, s.salt, G_ALT[c2 - 513], n_true)
-    } else {
+    } else if c2 <= 512 + G_ALT.len() + N_BITS.len() {
         (b_sent, s.salt, GENERATOR, flip(&n_true, N_BITS[c2 - 513 - G_ALT.len()]))
+    } else {
+        let keep = N_SHORT[c2 - 513 - G_ALT.len() - N_BITS.len()];
+        let mut n = n_true;
+        n[keep..].fill(0);
+        (b_sent, s.salt, GENERATOR, n)
     };
     if srp::client_public(&U::from_le_bytes(&s.a), g_recv, &U::from_le_bytes(&n_recv)).is_zero() {
         return Ok("client-key-would-be-zero".into()); // g = 0: the documented refusal of the client's own key (C04)
@@ -372,7 +380,7 @@ pub fn run(tier: Tier, seed: u64) -> i32 {
                 signature: format!("C02|{class}"),
                 scenario: "login-with-adversary".into(),
                 replay: json!({"session": s.name, "registered": [s.user, s.pass], "salt": hex(&s.salt), "b": hex(&s.b), "a": hex(&s.a), "choices": choices,
-                    "choice_points": ["typed-credentials (0 same,1 case variant,2 one char,3 length,4 username)", "B bit 1..256 / salt bit 257..512 / 513..522 = generator told to the client: 6 5 3 15 23 39 71 135 0 1 / 523..529 = modulus told to the client with bit 0 1 7 8 64 128 255 changed", "A bit 1..256 / M1 bit 257..416 / 417 = A replaced by A+N", "M2 bit 1..160"]}),
+                    "choice_points": ["typed-credentials (0 same,1 case variant,2 one char,3 length,4 username)", "B bit 1..256 / salt bit 257..512 / 513..522 = generator told to the client: 6 5 3 15 23 39 71 135 0 1 / 523..529 = modulus told to the client with bit 0 1 7 8 64 128 255 changed / 530..533 = modulus with only its low 31 30 24 16 bytes kept (high bytes zero)", "A bit 1..256 / M1 bit 257..416 / 417 = A replaced by A+N", "M2 bit 1..160"]}),
                 detail: json!({ "message": msg }),
             });
         }
